@@ -51,7 +51,7 @@ structure Fn where
   qualDotted : Bool            -- '.' in __qualname__
   params : List Param          -- inspect.signature(func).parameters, in order ('self' / 'cls' included when present)
   selfName : NameId            -- the interned name 'self'
-  firstIsSelf : Bool           -- getfullargspec(func).args[:1] == ['self']   (is_instance_method)
+  firstIsSelf : Bool           -- is_instance_method: `isInstanceMethodOf (getfullargspec(func).args[:1] == ['self']) (inspect.ismethod func)`
   isBound : Bool               -- inspect.ismethod(func)                       (is_class_method)
   retAnn : Option Ann          -- none = no return annotation
   genRet : GenRet              -- only read for generator functions
@@ -123,6 +123,11 @@ def Fn.startsDunder (f : Fn) : Bool := startsWithS f.name "__"
 def Fn.endsDunder (f : Fn) : Bool := endsWithS f.name "__"
 def Fn.shouldHaveKwargs (f : Fn) : Bool :=
   PedVerif.Gen.CallTables.shouldHaveKwargs f.isSetter f.wantsArgs f.startsDunder f.endsDunder (requireKwargsDunders.contains f.name)
+/-- `DecoratedFunction.is_instance_method` from what introspection reports: the first name of `getfullargspec(func).args` is
+    `self` (it still is for a BOUND method) and - since 86bfec9 - the callable is no bound method -/
+def isInstanceMethodOf (firstParamIsSelf isBound : Bool) : Bool :=
+  firstParamIsSelf && !(instanceMethodExcludesBound && isBound)
+
 def Fn.strips (f : Fn) : Bool := stripsFirst f.firstIsSelf f.isStatic (usesMultiple f.numDecorators f.isPedantic)
 def Fn.argsWithoutSelf {α} (f : Fn) (args : List α) : List α := if f.strips then args.drop stripFrom else args
 
